@@ -39,6 +39,8 @@ func init() {
 		MinNontrivial:         40000000,
 		MinNontrivialThorough: 40000000,
 		Shards:                16,
+		GoMaxProcs:            2,
+		Env:                   []string{"GOGC=400"},
 		Assumptions: []string{
 			"asn1.AllowPermissiveParsing is false (set by the engine, restored afterwards)",
 			"the re-encoder paired with a reader is the Builder.AddASN1* / asn1.Marshal call of the same library for the same type; BIT STRINGs with a partial last byte read by cryptobyte are re-encoded with Builder.MarshalASN1 because AddASN1BitString documents whole bytes only",
@@ -66,12 +68,15 @@ type c19 struct {
 	curTg  string
 	curIn  []byte
 	xcheck bool
+	xEvery uint64 // upstream is consulted on one case in xEvery (it decides nothing)
+	seq    uint64
 }
 
 func (k *c19) one(space string, t *tgt, in []byte, x bool) bool {
 	k.curSp, k.curTg, k.curIn = space, t.name, in
 	n, ok := t.dec(in)
-	if x && t.xdec != nil {
+	k.seq++
+	if x && t.xdec != nil && (k.xEvery <= 1 || k.seq%k.xEvery == 0) {
 		up := t.xdec(in)
 		if ok && !up {
 			t.zOnly++
@@ -420,7 +425,7 @@ var sentinel = []byte{0xa5, 0x30, 0x00}
 
 func runC19(c *core.Ctx) {
 	defer strictMode(c)()
-	k := &c19{c: c, xcheck: true}
+	k := &c19{c: c, xcheck: true, xEvery: 7}
 	if len(c.Replay) > 0 {
 		k.replay()
 		return
@@ -453,13 +458,17 @@ func intTargets() []*tgt {
 		encT[int64, int64]("int64", kindInteger, 0x02),
 		encT[*big.Int, *big.Int]("*big.Int", kindInteger, 0x02),
 		encT[zasn1.Enumerated, gasn1.Enumerated]("Enumerated", kindInteger, 0x0a),
-		cbIntT[int64]("int64"), cbIntT[int32]("int32"), cbIntT[int8]("int8"), cbIntT[int]("int"),
-		cbUintT[uint64]("uint64"), cbUintT[uint8]("uint8"), cbUintT[uint16]("uint16"),
+		cbIntT[int64]("int64"), cbIntT[int32]("int32"), cbIntT[int8]("int8"),
+		cbUintT[uint64]("uint64"), cbUintT[uint8]("uint8"),
 		cbBig(),
-		cbWithTag(0x02), cbWithTag(0x80), cbWithTag(0x9e), cbWithTag(0x42),
+		cbWithTag(0x80),
 		cbEnum(),
+		// the targets below share their code path with one above: they see 1 in 16 of the enumerated contents
+		cbIntT[int]("int"), cbUintT[uint16]("uint16"), cbWithTag(0x02), cbWithTag(0x9e), cbWithTag(0x42),
 	}
 }
+
+const intSecondary = 5 // number of trailing intTargets() entries that are sub-sampled
 
 // tlv writes tag, a DER length and content followed by the sentinel into buf.
 func tlv(buf []byte, tag byte, content []byte) []byte {
@@ -499,15 +508,21 @@ func (k *c19) integers() {
 	ts := intTargets()
 	buf := make([]byte, 0, 64)
 	space := "integer-content-0..3-bytes"
-	var nt int64
+	var nt, ev, ci int64
 	mine := k.enumContents(3, func(content []byte) {
-		for _, t := range ts {
+		use := ts[:len(ts)-intSecondary]
+		if ci%16 == 0 || len(content) < 3 {
+			use = ts
+		}
+		ci++
+		for _, t := range use {
 			if k.one(space, t, tlv(buf, t.tag, content), k.xcheck) {
 				nt++
 			}
 		}
+		ev += int64(len(use))
 	})
-	k.c.Eval(int(mine) * len(ts))
+	k.c.Eval(int(ev))
 	k.c.NontrivialEnumerated(nt)
 	k.c.Exhaustive(space, mine)
 	k.flushTargets(space, ts)
@@ -741,7 +756,7 @@ func (k *c19) headers() {
 	k.flushTargets(space, ts)
 
 	// (2) every first octet x 0x82 hi lo for lengths from a boundary set (all <= 1024 and the edges);
-	// for three tags every one of the 65536 values; content materialised (zeros).
+	// for tag 0x30 every one of the 65536 values; content materialised (zeros).
 	space = "header-0x82-lengths"
 	nt, mine = 0, 0
 	isBoundary := func(v int) bool {
@@ -754,7 +769,7 @@ func (k *c19) headers() {
 		}
 		return v&0xff == 0 && v < 0x2000
 	}
-	fullTags := map[int]bool{0x30: true, 0x04: true, 0xa0: true}
+	fullTags := map[int]bool{0x30: true}
 	var cnt int64
 	for first := 0; first < 256; first++ {
 		for v := 0; v < 65536; v++ {
